@@ -147,7 +147,8 @@ def describe(buf: bytes, cell: int):
     return {"len": len(buf), "unit": unit, "runs": runs[:12]}
 
 
-def requests_for(ncells: int, cell: int, size: int, rng: random.Random, *, full: bool, jitter: bool = True, cap: int = 64):
+def requests_for(ncells: int, cell: int, size: int, rng: random.Random, *, full: bool, jitter: bool = True, cap: int = 64,
+                 max_len: int = 8 << 20):
     """(offset, length) byte requests derived from the abstract cell grid.
 
     full=True: every cell-aligned (o, n) with o+n <= ncells plus byte-jittered variants;
@@ -160,7 +161,7 @@ def requests_for(ncells: int, cell: int, size: int, rng: random.Random, *, full:
     else:
         for bnd in range(0, ncells + 1):
             x = bnd * cell
-            for lo, hi in ((512, 512), (1, 1), (4096, 8192), (cell // 2, cell // 2 + 512)):
+            for lo, hi in ((512, 512), (1, 1), (4096, 8192), (min(cell // 2, max_len // 2), min(cell // 2, max_len // 2) + 512)):
                 a = max(0, x - lo)
                 b = min(size, x + hi)
                 if b > a:
@@ -168,7 +169,7 @@ def requests_for(ncells: int, cell: int, size: int, rng: random.Random, *, full:
         reqs.append((0, size))
         for o in range(ncells):
             for n in (2, 3):
-                if o + n <= ncells:
+                if o + n <= ncells and n * cell <= max_len:
                     reqs.append((o * cell + cell // 2, min(n * cell, size - o * cell - cell // 2)))
     if jitter:
         extra = []
@@ -179,7 +180,7 @@ def requests_for(ncells: int, cell: int, size: int, rng: random.Random, *, full:
                 if 0 <= a < b <= size:
                     extra.append((a, b - a))
         reqs += extra
-    reqs = [(o, n) for (o, n) in reqs if n > 0 and o < size]
+    reqs = [(o, min(n, max_len)) for (o, n) in reqs if n > 0 and o < size]
     # dedupe, keep order
     seen = set()
     out = []
